@@ -170,6 +170,13 @@ func renderFile(f File, style int) (string, FileFacts) {
 			if !s.Noise {
 				text += ";"
 			}
+			if s.Noise {
+				// always a line of its own (it may be a comment): nothing is ever joined to it
+				flush()
+				mf.Lines = append(mf.Lines, w.line)
+				w.ln("        " + text)
+				continue
+			}
 			if plainForm {
 				if s.Join && pending != "" {
 					pending += " " + text
